@@ -100,6 +100,7 @@ def defaultsStep (_ : Unit) (line : String) : Unit × String :=
     -- "pending" = another signal is blocked and pending meanwhile: it does not matter to the outcome
     match parseInt? n, (match ctx with | "normal" => some Default.Ctx.normal | "pending" => some Default.Ctx.normal
                                        | "group" => some Default.Ctx.normal   -- with a bystander in the same process group: no matter
+                                       | "worker" => some Default.Ctx.normal  -- on a second thread, the main thread idling: no matter
                                        | "handler" => some .inHandler
                                        | "cond" => some .inHandler | _ => none) with
     | some n, some c =>
@@ -578,7 +579,7 @@ def itRun (d : ItDrv) (sched : List Nat) : List String := Id.run do
 def itStep (d : ItDrv) (line : String) : ItDrv × String :=
   match line.trimAscii.toString.splitOn " " with
   | "setup" :: "watch" :: rest => ({ d with watched := d.watched ++ rest.filterMap (·.toNat?) }, "")
-  | ["setup", "fill"] | ["setup", "style", _] | ["seed", _] | ["maxsteps", _] | ["setup", "batches", _] => (d, "")
+  | ["setup", "fill"] | ["setup", "style", _] | ["seed", _] | ["maxsteps", _] | ["setup", "batches", _] | ["delay", _, _] => (d, "")
   | [t, "drain", k] =>
     match (t.drop 1).toString.toNat? with
     | some t =>
@@ -867,6 +868,7 @@ def piStep (d : PiDrv) (line : String) : PiDrv × String :=
     match d.method with
     | some _ => ({ d with fd := Pipe.close d.fd, method := none, closed := true }, "unregistered=true fd=closed\n  sys close W = 0")
     | none => (d, s!"unregistered=false fd={if d.closed then "closed" else "open"}")
+  | ["eintr-close"] => (d, "ok")   -- an interrupted close has released the descriptor: nothing else to model
   | ["final"] => (d, s!"fd={if d.closed then "closed" else "open"}")
   | _ => (d, "bad-op")
 
@@ -909,6 +911,12 @@ def sqStep (d : SqDrv) (line : String) : SqDrv × String :=
     match w with
     | "new" :: _ :: sigs =>
       ({ s := Iter.Sys.init (sigs.filterMap (·.toNat?)) 278 0 [[], []] }, "ok")
+    | "newstart" :: _ :: sigs =>
+      -- the first signal of the list is delivered once, right after it has been registered (during start-up)
+      let s0 := Iter.Sys.init (sigs.filterMap (·.toNat?)) 278 0 [[], []]
+      match (sigs.head?.bind (·.toNat?)) with
+      | some sig => ({ s := (sqRun (sqSet s0 0 (fun th => { th with script := [.deliver sig] })) 0 (fun _ => false) 10).1 }, "ok")
+      | none => ({ s := s0 }, "ok")
     | "raise" :: sg :: rest =>
       let n := (rest.head?.bind (·.toNat?)).getD 1
       match sg.toNat? with
